@@ -1,9 +1,9 @@
 """C05 - a sequential node never overlaps any other node of its execution."""
 from __future__ import annotations
 
-from ..gprog import GProg, prog_from_shape, res_menu, seq_menu, shapes, with_attrs
+from ..gprog import res_menu, seq_menu, shapes
 from ..monitors import mon_c05
-from ..sched import replay_prog, run_prog
+from ..sched import replay_case, run_case
 from ..spaces import all_res, all_seq, desc_prio, shard_iter
 
 ID = "C05"
@@ -12,6 +12,7 @@ MONITORS = [mon_c05]
 
 
 def cases(tier: str):
+    q = tier == "quick"
     for n in (1, 2, 3):
         for es in shapes(n):
             for seq in all_seq(n):
@@ -21,21 +22,18 @@ def cases(tier: str):
                     for mc in (1, 2, 3):
                         for prio in ((0,) * n, desc_prio(n)):
                             for is_async in (False, True):
-                                yield dict(n=n, es=es, seq=seq, res=res, mc=mc, prio=prio, is_async=is_async,
-                                           ties=1 if tier == "quick" else None)
+                                yield dict(n=n, es=es, seq=seq, res=res, mc=mc, prio=prio, is_async=is_async, ties=1 if q else None)
     n = 4
     for es in shapes(n):
-        seqs = seq_menu(n) if tier == "quick" else all_seq(n)
-        for seq in seqs:
+        for seq in all_seq(n):
             if not any(seq):
                 continue
             for res in res_menu(n):
-                for mc in ((2, 3) if tier == "quick" else (1, 2, 3)):
-                    for prio in (((0,) * n,) if tier == "quick" else ((0,) * n, desc_prio(n))):
-                        for is_async in ((False,) if tier == "quick" else (False, True)):
-                            yield dict(n=n, es=es, seq=seq, res=res, mc=mc, prio=prio, is_async=is_async,
-                                       ties=1 if tier == "quick" else None)
-    if tier == "thorough":
+                for mc in (1, 2, 3):
+                    for prio in (((0,) * n,) if q else ((0,) * n, desc_prio(n))):
+                        for is_async in ((False,) if q else (False, True)):
+                            yield dict(n=n, es=es, seq=seq, res=res, mc=mc, prio=prio, is_async=is_async, ties=1 if q else None)
+    if not q:
         n = 5
         for es in shapes(n):
             for seq in seq_menu(n):
@@ -44,11 +42,6 @@ def cases(tier: str):
                 for res in ("t" * n, "tatat"):
                     for mc in (2, 3):
                         yield dict(n=n, es=es, seq=seq, res=res, mc=mc, prio=(0,) * n, is_async=False, ties=2)
-
-
-def prog_of(c) -> GProg:
-    p = prog_from_shape(c["n"], [tuple(e) for e in c["es"]], mc=c["mc"], is_async=c["is_async"])
-    return with_attrs(p, res=c["res"], seq=c["seq"], prio=c["prio"])
 
 
 def nontrivial(view):
@@ -64,10 +57,9 @@ def nontrivial(view):
 
 def run_shard(tier, k, n, acc):
     for c in shard_iter(cases(tier), k, n, acc):
-        run_prog(acc, prog_of(c), MONITORS, tie_budget=c["ties"], nontrivial=nontrivial, case=c)
+        run_case(acc, c, MONITORS, nontrivial)
 
 
 def replay(v):
-    c = v["case"]
-    res, viols = replay_prog(prog_of(c), MONITORS, v["prefix"])
+    res, viols = replay_case(v["case"], MONITORS, v["prefix"])
     return viols, res.trace
